@@ -692,4 +692,12 @@ def standard_check(ctx, spec):
     }
     if hasattr(spec, "distribution"):
         coverage["distribution"] = spec.distribution(cases, results)
+    # level "other" needs coverage.explanation; plug-ins may add any further keys
+    if getattr(spec, "explanation", None):
+        coverage["explanation"] = spec.explanation
+    extra = getattr(spec, "coverage_extra", None)
+    if callable(extra):
+        extra = extra(cases, results)
+    if extra:
+        coverage.update(extra)
     finish(ctx, spec.level, coverage, spec.assumptions)
